@@ -158,6 +158,7 @@ structure DState where
   store : Store := []
   implicitAcc : List (Db × Oid) := []
   saved : Store := []
+  sps : List Store := []          -- the store at each savepoint of the running transaction
   lastW : WState := WState.init
   dbs : List Db := []
   missing : List Cls := []
@@ -248,7 +249,15 @@ def step (d : DState) (toks : List String) : DState × String :=
     let n := d.objs.length
     (d, joinWith " " ((List.range n).map fun h =>
       toString h ++ "=" ++ showOpt (finalOid d.objs d.lastW h) ++ "@" ++ showJar (finalJar d.env d.objs d.lastW h)))
-  | ["txnbegin"] => ({ d with implicitAcc := [], saved := d.store }, "ok")
+  | ["txnbegin"] => ({ d with implicitAcc := [], saved := d.store, sps := [] }, "ok")
+  | ["spmark"] => ({ d with sps := d.sps ++ [d.store] }, "ok")
+  | ["sprollback", k] =>
+    match k.toNat? with
+    | some k =>
+      (match d.sps[k]? with
+       | some st => ({ d with store := st, sps := d.sps.take (k + 1) }, "ok")
+       | none => (d, "bad-op"))
+    | none => (d, "bad-op")
   | ["txnend"] => ({ d with implicitAcc := [] }, "ok")
   | ["txnabort"] => ({ d with implicitAcc := [], store := d.saved }, "ok")
   | "put" :: key :: cls :: rest =>
